@@ -331,6 +331,17 @@ def main():
                       "package p\n\nfunc h() {\n\tn := 1\n\tuse(v, e)\n\tuse(n, 2)\n\tkeep(3, v)\n\tkeep(4, n)\n}\n")):
         for mode in ("one-file", "p-each", "stdin"):
             cases.append((chs, [{"kind": "name-reused"} for _ in chs], src, mode, None))
+    # two changes that each add an import, on a file whose import(s) carry trailing comments: the first change merges the
+    # declarations and a comment group is emptied; nothing may still point to it when the second change adds its import (fix db7684d)
+    ADD1 = "@@\nvar x expression\n@@\n+import \"example.com/one\"\n\n-first(x)\n+one.F(x)\n"
+    ADD2 = "@@\nvar x expression\n@@\n+import \"example.com/two\"\n\n-second(x)\n+two.F(x)\n"
+    for imp in ("import \"os\" // trailing\n", "import \"os\" /* block */\n", "// doc\nimport \"os\" // trailing\n", "import (\n\t\"os\" // trailing\n)\n",
+                "import \"os\" // one\n\nimport \"fmt\" // two\n", "",
+                "import \"os\"\n\nimport (\n\t\"example.com/e\" // trailing comment\n)\n\nvar _ = e.E\n",
+                "import \"os\"\n\nimport (\n\t// doc\n\t\"example.com/e\" // trailing comment\n\t\"example.com/g\"\n)\n\nvar _, _ = e.E, g.G\n"):
+        src = "package a\n\n%s\nfunc h() {\n\tfirst(os.Args)\n\tsecond(1)\n}\n" % imp
+        for mode in ("one-file", "p-each"):
+            cases.append(([ADD1, ADD2], [{"kind": "two-imports-added"}, {"kind": "two-imports-added"}], src, mode, None))
     outs = vlib.pmap(run_case, cases)
     # syntax-tree digests, parentheses elided
     srcs = []
